@@ -21,22 +21,25 @@ From Coq Require Import List NArith Arith Bool.
 From SNT Require Import Base.Outcome Base.Report IO.IOQueue.
 Import ListNotations.
 
+Section Fifo.
+Context {A : Type} (aeqb : A -> A -> bool).
+
 Record fifo := mkF {
-  owed : list N;          (* bytes written, not handed out, not discarded *)
+  owed : list A;          (* bytes written, not handed out, not discarded *)
   marks : list nat;       (* increasing positions 0 < m <= |owed| where a flush closed a frame *)
   started : bool          (* a byte of the head frame has been handed out *)
 }.
 
 Definition fifo0 : fifo := mkF [] [] false.
 
-Fixpoint is_prefix (p l : list N) : bool :=
+Fixpoint is_prefix (p l : list A) : bool :=
   match p, l with
   | [], _ => true
-  | a :: p', b :: l' => N.eqb a b && is_prefix p' l'
+  | a :: p', b :: l' => if aeqb a b then is_prefix p' l' else false
   | _ :: _, [] => false
   end.
 
-Definition f_write (f : fifo) (b : list N) : fifo :=
+Definition f_write (f : fifo) (b : list A) : fifo :=
   mkF (owed f ++ b) (marks f) (started f).
 
 Definition f_flush (f : fifo) : fifo :=
@@ -68,13 +71,13 @@ Definition f_drop (f : fifo) (cut : nat) : fifo :=
   mkF (firstn cut (owed f)) (filter (fun m => m <=? cut) (marks f)) (started f).
 
 (* observations common to every call *)
-Definition f_common (f : fifo) (len : nat) (empty : bool) (slice : list N) : bool :=
+Definition f_common (f : fifo) (len : nat) (empty : bool) (slice : list A) : bool :=
   (len =? length (owed f))
   && is_prefix slice (owed f)
   && (if empty then match owed f with [] => true | _ => false end else true).
 
 (* one call checked against what was observed; prev = front slice before the call *)
-Definition f_step (f : fifo) (prev : list N) (o : op N) (ob : obs N) : option fifo :=
+Definition f_step (f : fifo) (prev : list A) (o : op A) (ob : obs A) : option fifo :=
   match ob with
   | ObsPanic =>
       (* only a consume beyond the slice handed to the caller may do anything it likes *)
@@ -93,7 +96,7 @@ Definition f_step (f : fifo) (prev : list N) (o : op N) (ob : obs N) : option fi
              && (match out, n, owed f with [], S _, _ :: _ => false | _, _, _ => true end)
           then fin (f_take f (length out)) else None
       | OReadToEnd, RBytes out =>
-          if nlist_eqb out (owed f) then fin (f_take f (length out)) else None
+          if list_eqb aeqb out (owed f) then fin (f_take f (length out)) else None
       | OConsume amt, RUnit =>
           fin (f_take f (N.to_nat (N.min amt (N.of_nat (length prev)))))
       | OConsumeWith k clamp, RNum size =>
@@ -105,10 +108,10 @@ Definition f_step (f : fifo) (prev : list N) (o : op N) (ob : obs N) : option fi
       end
   end.
 
-Definition obs_slice (ob : obs N) : list N :=
+Definition obs_slice (ob : obs A) : list A :=
   match ob with Obs _ _ _ _ s => s | ObsPanic => [] end.
 
-Fixpoint f_run (f : fifo) (prev : list N) (ops : list (op N)) (obs : list (obs N)) : bool :=
+Fixpoint f_run (f : fifo) (prev : list A) (ops : list (op A)) (obs : list (obs A)) : bool :=
   match ops, obs with
   | [], [] => true
   | o :: ops', ob :: obs' =>
@@ -123,5 +126,11 @@ Fixpoint f_run (f : fifo) (prev : list N) (ops : list (op N)) (obs : list (obs N
   | _, _ => false
   end.
 
-Definition fifo_check (ops : list (op N)) (obs : list (obs N)) : bool :=
+Definition gfifo_check (ops : list (op A)) (obs : list (obs A)) : bool :=
   f_run fifo0 [] ops obs.
+End Fifo.
+
+Arguments fifo : clear implicits.
+
+Definition fifo_check (ops : list (op N)) (obs : list (obs N)) : bool :=
+  gfifo_check N.eqb ops obs.
